@@ -16,6 +16,7 @@ import numpy as np
 import scipy.integrate
 
 import common
+import c13_cover
 from common import coq_lit, Nat
 
 SZ = np.diag([0.5, -0.5])
@@ -485,15 +486,18 @@ def run_chunks(ctx, cases):
     np_ = common.NPROC
     chunks = [cases[i::np_] for i in range(np_)]
     chunks = [c for c in chunks if c]
-    res = common.run_impl_parallel('c13_impl.py', [{'cases': ch} for ch in chunks])
+    # every runner process records the executed lines of the anchored tenpy files (sys.monitoring, each location reported once)
+    res = common.run_impl_parallel('c13_impl.py', [{'cases': ch, 'cover': c13_cover.MODULES} for ch in chunks])
     results = [None] * len(cases)
+    hits = []
     for i, (r, err) in enumerate(res):
         if err:
             ctx.fail('correspondence', 'implementation runner failed: ' + err[-600:], None)
             continue
-        for j, x in enumerate(r):
+        hits.append(r.get('cover'))
+        for j, x in enumerate(r['results']):
             results[i + j * np_] = x
-    return results
+    return results, hits
 
 
 def entry_lit(e):
@@ -550,7 +554,7 @@ def main(ctx):
     cases += [gen_inf_noenv(rng) for _ in range(ctx.pick(12, 60))]
     for c in common.corpus_cases('C13'):
         cases.append(c['case'])
-    results = run_chunks(ctx, cases)
+    results, cover_hits = run_chunks(ctx, cases)
     coq_t, coq_t_idx = [], []
     coq_s, coq_s_idx, coq_r, coq_r_idx = [], [], [], []
     coq_q, coq_q_idx = [], []
